@@ -68,14 +68,36 @@ def shape_newick(shape: str, n: int, rng=None) -> str:
     raise ValueError(shape)
 
 
+_DTYPE = {"name": "float64"}  # default dtype the library runs under (the CLI sets it globally); float32 in part 5
+TOL32 = 1e-6  # float32 results: the returned number itself is rounded to 6e-8 relative; 1e-6 leaves room for ~70 taxa
+
+
 def tt():
-    """import torch/torchtree lazily (after use_repo)"""
+    """import torch/torchtree lazily (after use_repo); (re)apply the default dtype of the current regime"""
     use_repo()
     import torch
 
     torch.set_num_threads(2)
-    torch.set_default_dtype(torch.float64)
+    torch.set_default_dtype(getattr(torch, _DTYPE["name"]))
     return torch
+
+
+class dtype_regime:
+    def __init__(self, name):
+        self.name = name
+
+    def __enter__(self):
+        self.old = _DTYPE["name"]
+        _DTYPE["name"] = self.name
+        tt()
+
+    def __exit__(self, *a):
+        _DTYPE["name"] = self.old
+        tt()
+
+
+def tol_now():
+    return TOL32 if _DTYPE["name"] == "float32" else TOL
 
 
 class Built:
@@ -121,7 +143,8 @@ def build_model(cfg: dict):
         site = ConstantSiteModel("site")
     else:
         site = WeibullSiteModel("site", Parameter("shape", torch.tensor([0.7])), K)
-    like = TreeLikelihoodModel("like", sp, tm, sm, site, None, False, bool(cfg.get("tip_states", False)))
+    like = TreeLikelihoodModel("like", sp, tm, sm, site, None, bool(cfg.get("use_ambiguities", False)),
+                               bool(cfg.get("tip_states", False)))
     b = Built()
     b.like, b.blp, b.tm, b.sm, b.site = like, blp, tm, sm, site
     return b
@@ -586,6 +609,21 @@ class Hist:
         self.scale *= f
         self.ops.append({"op": "scale-branch-lengths", "factor": f})
 
+    def apply_op(self, name):
+        """history steps that are not parameter updates; exceptions propagate to the caller (who records them)"""
+        import copy
+
+        if name == "cpu":
+            self.b.like.cpu()
+        elif name == "to-cpu":
+            self.b.like.to("cpu")
+        elif name == "deepcopy-and-continue-on-copy":
+            like2 = copy.deepcopy(self.b.like)
+            self.b = Built()
+            self.b.like = like2
+            self.b.blp = like2.tree_model._branch_lengths
+        self.ops.append({"op": name})
+
     def set_sample_scales(self, factors):
         """batched model: sample s gets the base branch lengths times factors[s] (a parameter update)"""
         torch = tt()
@@ -628,11 +666,21 @@ def eval_and_check(ck, drv, h: Hist, label, refs, fails, want_mp=False, group="s
         return rec
     v = rec["value"]
     batch = cfg.get("batch")
+    want_n = len(batch) if batch else 1
+    if not hasattr(v, "reshape") or v.numel() != want_n:  # unexpected type/shape: a recorded failure, never an exception
+        fails.append(dict(info, kind="bad-shape", got=str(getattr(v, "shape", type(v))), sites=cfg["sites"],
+                          values=None, reference=None, rel_err=None))
+        ck.case(key=(label, json.dumps(info["cfg"], sort_keys=True), "bad-shape"), bucket=f"{group}/bad-shape")
+        return rec
     vals = [float(x) for x in v.reshape(-1).tolist()]
     ref_vals, site_min = [], []
     for s in range(len(vals)):
         kc = dict(info["cfg"])
-        kc.pop("tip_states", None)  # both tip paths denote the same number on unambiguous data
+        if all(ch in "ACGT" for row in cfg["sites"] for ch in row):
+            kc.pop("tip_states", None)  # both tip paths denote the same number on unambiguous data
+        kc["sites_hash"] = hash(tuple(cfg["sites"]))
+        for extra_key in ("route", "route_opts", "dtype", "run_under", "mixed", "batch_history"):
+            kc.pop(extra_key, None) if extra_key not in ("dtype",) else None
         kc.pop("batch", None) if isinstance(h.scale, tuple) else None
         sc_key = round(h.scale[s], 12) if isinstance(h.scale, tuple) else (round(h.scale * (batch[s] if batch else 1.0), 12))
         key = (json.dumps({k: v for k, v in kc.items() if k != "batch"}, sort_keys=True), sc_key)
@@ -649,7 +697,8 @@ def eval_and_check(ck, drv, h: Hist, label, refs, fails, want_mp=False, group="s
     for s, (x, r) in enumerate(zip(vals, ref_vals)):
         e = rel(x, r)
         worst = max(worst, e if math.isfinite(e) else 1.0)
-        zone = "normal" if site_min[s] > -708.39 else ("denormal" if site_min[s] > -744.4 else "zero")
+        lo_n, lo_d = (-87.3, -103.2) if _DTYPE["name"] == "float32" else (-708.39, -744.4)
+        zone = "normal" if site_min[s] > lo_n else ("denormal" if site_min[s] > lo_d else "zero")
         ck.case(key=(group, label, cfg["shape"], cfg["model"], cfg["n"], cfg.get("K", 1), tipst, s, branch,
                      cfg["t"] if not isinstance(cfg["t"], list) else tuple(cfg["t"])),
                 bucket=f"{group}/{zone}/{branch}",
@@ -657,7 +706,7 @@ def eval_and_check(ck, drv, h: Hist, label, refs, fails, want_mp=False, group="s
                         "impl": x, "reference": r, "rel_err": e, "min_site_log": site_min[s]})
         if not math.isfinite(x):
             fails.append(dict(info, kind="not-finite", sample=s, rel_err=None, sites=cfg["sites"]))
-        elif e > TOL:
+        elif e > tol_now():
             fails.append(dict(info, kind="inaccurate", sample=s, rel_err=e, sites=cfg["sites"]))
     info["rel_err"] = worst
     # automaton: sticky flag and branch structure
@@ -701,10 +750,10 @@ def sweep(ck: Check, drv, budget_s: float):
     t_start = time.time()
     # (shape, model, K, t, tip_states)
     configs = [
-        ("caterpillar", "JC69", 1, 5.0, False),
         ("balanced", "HKY", 1, 2.0, False),
         ("random", "JC69", 4, 1.5, False),
         ("balanced", "HKY", 1, 3.0, True),
+        ("caterpillar", "JC69", 1, 5.0, False),  # slowest (deep recursion, largest rationals): last, gets what is left
     ]
     if thorough:
         configs += [
@@ -714,10 +763,10 @@ def sweep(ck: Check, drv, budget_s: float):
             ("balanced", "JC69", 1, [0.3, 5.0, 1.0], False),
         ]
     refs = {}
-    per_cfg = budget_s / len(configs)
     for ci, (shape, model, K, t, tipst) in enumerate(configs):
         t_cfg = time.time()
-        nsites = (5 if thorough else 3) if K == 1 else (2 if thorough else 1)
+        per_cfg = max(0.0, budget_s - (t_cfg - t_start)) / (len(configs) - ci)  # unused time rolls over
+        nsites = (5 if thorough else 2) if K == 1 else (2 if thorough else 1)
         nmax = 1400
         sites_all = random_sites(rng, nmax, nsites)
         base = {"shape": shape, "model": model, "K": K, "t": t, "tip_states": tipst, "seed_shape": rng.randrange(10 ** 6),
@@ -840,7 +889,9 @@ def mixed_sweep(ck: Check, drv, budget_s: float):
             ("random", 350, "HKY", 4, False, 1),
             ("balanced", 256, "JC69", 1, True, 1),
         ]
-    targets = [-712.0, -726.0, -733.0, -738.0, -741.5, -744.0] if thorough else [-715.0, -731.0, -738.0, -742.5]
+    targets = [-712.0, -726.0, -733.0, -738.0, -741.5, -744.0] if thorough else [-720.0, -736.0, -742.5]
+    if not thorough:
+        configs = configs[:2]
     for ci, (shape, n, model, K, tipst, n_band) in enumerate(configs):
         if time.time() - t_start > budget_s:
             ck.notes.append(f"mixed sweep budget reached before configuration {ci}")
@@ -959,6 +1010,508 @@ def batch_histories(ck: Check, drv, budget_s: float):
 
 
 # ----------------------------------------------------------------------------------------------
+# part 5: HOW the object is reached — construction routes, dtype regimes, grad modes, immutability, repeatability,
+#         copies and device moves, special inputs, failure paths (fourth-wave checklist)
+# ----------------------------------------------------------------------------------------------
+
+AMBIG = "ACGTNR-Y"
+
+
+def record_fail(fails, kind, cfg, label, **kw):
+    fails.append(dict({"kind": kind, "cfg": cfg_public(cfg), "label": label, "calls": kw.pop("calls", []),
+                       "sites": cfg.get("sites"), "history": kw.pop("history", []), "values": kw.pop("values", None),
+                       "reference": kw.pop("reference", None), "rel_err": kw.pop("rel_err", None)}, **kw))
+
+
+def json_like_spec(cfg, opts, full_names: bool, referenced: bool, rng):
+    """JSON for the likelihood of `cfg` (and the objects it needs). opts: dict with optional keys use_ambiguities,
+    use_tip_states (absent = key not written). Returns (list of specs to process in order, id of the likelihood)."""
+    use_repo()
+    from torchtree.cli.evolution import create_tree_likelihood_single
+    from torchtree.evolution.tree_model import UnRootedTreeModel
+
+    n = cfg["n"]
+
+    def T(short, full):
+        return full if full_names else short
+
+    taxa = {"id": "taxa", "type": T("Taxa", "torchtree.evolution.taxa.Taxa"),
+            "taxa": [{"id": "t%d" % i, "type": T("Taxon", "torchtree.evolution.taxa.Taxon")} for i in range(n)]}
+    bl = [float(x) for x in branch_tensor(cfg).tolist()]
+    tree = UnRootedTreeModel.json_factory("tree", shape_newick(cfg["shape"], n, __import__("random").Random(cfg.get("seed_shape", 0))),
+                                          bl, "taxa" if referenced else taxa["taxa"])
+    if full_names:
+        tree["type"] = "torchtree.evolution.tree_model.UnRootedTreeModel"
+    aln = {"id": "aln", "type": T("Alignment", "torchtree.evolution.alignment.Alignment"), "datatype": "nucleotide",
+           "taxa": "taxa", "sequences": [{"taxon": "t%d" % i, "sequence": cfg["sites"][i]} for i in range(n)]}
+    sp = {"id": "sp", "type": T("SitePattern", "torchtree.evolution.site_pattern.SitePattern"),
+          "alignment": "aln" if referenced else aln}
+    if cfg["model"] == "JC69":
+        subst = {"id": "jc", "type": T("JC69", "torchtree.evolution.substitution_model.JC69")}
+    else:
+        subst = {"id": "hky", "type": T("HKY", "torchtree.evolution.substitution_model.HKY"),
+                 "kappa": {"id": "kappa", "type": "Parameter", "tensor": [2.5]},
+                 "frequencies": {"id": "freqs", "type": "Parameter", "tensor": [0.1, 0.2, 0.3, 0.4]}}
+    if cfg.get("K", 1) == 1:
+        site = {"id": "site", "type": T("ConstantSiteModel", "torchtree.evolution.site_model.ConstantSiteModel")}
+    else:
+        site = {"id": "site", "type": T("WeibullSiteModel", "torchtree.evolution.site_model.WeibullSiteModel"),
+                "categories": cfg["K"], "shape": {"id": "shape", "type": "Parameter", "tensor": [0.7]}}
+    if referenced:  # the shape the CLI emits: everything by id
+        like = create_tree_likelihood_single("like", "tree", None, "subst_ref", "site", "sp")
+        like["substitution_model"] = subst["id"]
+        pre = [taxa, tree, site, subst, aln, sp]
+    else:
+        like = {"id": "like", "type": "TreeLikelihoodModel", "tree_model": tree, "site_model": site,
+                "substitution_model": subst, "site_pattern": sp}
+        pre = []
+    if full_names:
+        like["type"] = "torchtree.evolution.tree_likelihood.TreeLikelihoodModel"
+    for k, v in opts.items():
+        like[k] = v
+    items = list(like.items())
+    rng.shuffle(items)  # key order must not matter
+    return pre + [dict(items)], "like"
+
+
+def build_from_json(specs):
+    use_repo()
+    from torchtree.core.utils import process_object
+
+    tt()
+    dic = {}
+    obj = None
+    for spec in specs:
+        obj = process_object(spec, dic)
+        dic[spec["id"]] = obj
+    return obj
+
+
+def newick_with_lengths(shape, n, t, rng):
+    """shape_newick with `:t` on every edge (for keep_branch_lengths routes)"""
+    import re
+
+    nwk = shape_newick(shape, n, rng)[:-1]
+    nwk = re.sub(r"(t\d+)", lambda m: "%s:%s" % (m.group(1), t), nwk)
+    nwk = nwk.replace(")", "):%s" % t)
+    return nwk[: nwk.rfind(":")] + ";"
+
+
+def clock_route_check(ck: Check, drv, fails, refs, rng, n: int, t: float, opts: dict):
+    """the remaining optional key of TreeLikelihoodModel.from_json: `branch_model` (strict clock on a time tree whose
+    heights come from the newick branch lengths). JSON-built vs keyword-constructor-built on the same sub-objects."""
+    torch = tt()
+    use_repo()
+    from torchtree.core.utils import process_object
+    from torchtree.evolution.tree_likelihood import TreeLikelihoodModel
+    from torchtree.evolution.tree_model import TimeTreeModel
+
+    import random as _r
+
+    sites = random_sites(rng, n, 2)
+    cfg = {"shape": "balanced", "model": "JC69", "K": 1, "t": t, "n": n, "sites": sites, "clock_route": True,
+           "tip_states": bool(opts.get("use_tip_states")), "use_ambiguities": bool(opts.get("use_ambiguities")),
+           "route_opts": opts}
+    label = "route:json+branch_model opts=%s n=%d" % (json.dumps(opts, sort_keys=True), n)
+    try:
+        tree = TimeTreeModel.json_factory("tree", newick_with_lengths("balanced", n, t, _r.Random(0)), [0.0] * (n - 1),
+                                          {"t%d" % i: 0.0 for i in range(n)}, keep_branch_lengths=True,
+                                          internal_heights_id="heights")
+        like_spec = {"id": "like", "type": "TreeLikelihoodModel", "tree_model": tree,
+                     "site_model": {"id": "site", "type": "ConstantSiteModel"},
+                     "substitution_model": {"id": "jc", "type": "JC69"},
+                     "site_pattern": {"id": "sp", "type": "SitePattern", "alignment": {
+                         "id": "aln", "type": "Alignment", "datatype": "nucleotide", "taxa": "taxa",
+                         "sequences": [{"taxon": "t%d" % i, "sequence": sites[i]} for i in range(n)]}},
+                     "branch_model": {"id": "clock", "type": "StrictClockModel", "tree_model": "tree",
+                                      "rate": {"id": "rate", "type": "Parameter", "tensor": [1.0]}}}
+        like_spec.update(opts)
+        dic = {}
+        like = process_object(like_spec, dic)
+        like_kw = TreeLikelihoodModel(id_="like_kw", site_pattern=like.site_pattern, tree_model=like.tree_model,
+                                      subst_model=like.subst_model, site_model=like.site_model, clock_model=like.clock_model,
+                                      use_ambiguities=bool(opts.get("use_ambiguities")), use_tip_states=bool(opts.get("use_tip_states")))
+    except Exception as e:
+        record_fail(fails, "route-raised", cfg, label, error="%s: %s" % (type(e).__name__, str(e)[:160]))
+        ck.case(key=label, bucket="route/raised")
+        return
+    ck.case(key=label, bucket="route/json+branch_model")
+    r_kw = observe(like_kw)
+    h = Hist.__new__(Hist)
+    h.cfg, h.ops, h.scale = cfg, [{"op": "built-from-json-with-clock"}], 1.0
+    h.b = Built()
+    h.b.like, h.b.blp = like, like.tree_model._internal_heights
+    r1 = eval_and_check(ck, drv, h, "route-clock-fresh", refs, fails, group="route")
+    eval_and_check(ck, drv, h, "route-clock-repeat", refs, fails, group="route")
+    if like.clock_model is None or like.use_tip_states != bool(opts.get("use_tip_states")):
+        record_fail(fails, "route-differs", cfg, label, detail=["clock_model/use_tip_states not as given"])
+    if "value" in r1 and "value" in r_kw and (not torch.equal(r1["value"], r_kw["value"]) or r1["calls"] != r_kw["calls"]):
+        record_fail(fails, "route-differs", cfg, label, detail=["json %r vs keyword constructor %r" % (r1["value"].tolist(), r_kw["value"].tolist())])
+
+
+def routes_check(ck: Check, drv, budget_s: float):
+    """every option subset of TreeLikelihoodModel.from_json x {short, full type names} x {inline, referenced (CLI shape)}
+    x shuffled key order; positional vs keyword constructor. The route-built object must carry the options it was
+    given, start with the flag clear and the dtype's threshold, and evaluate bit-identically to the constructor-built
+    one (and within 1e-8 of the exact reference) — on a small tree and at a size inside the denormal band."""
+    torch = tt()
+    rng = ck.rng
+    fails, refs = [], {}
+    t_start = time.time()
+    use_repo()
+    from torchtree.evolution.tree_likelihood import TreeLikelihoodModel
+
+    plans = [("random", "HKY", 1, 12, 0.3)]
+    if ck.thorough():
+        plans += [("balanced", "JC69", 4, 9, 1.0)]
+    d_band = None
+    for shape, model, K, n, t in plans:
+        sites = ["".join(rng.choice(AMBIG if rng.random() < 0.25 else "ACGT") for _ in range(4)) for _ in range(n)]
+        base = {"shape": shape, "model": model, "K": K, "t": t, "n": n, "sites": sites, "seed_shape": rng.randrange(10 ** 6),
+                "route": True}
+        subsets = [(a, b) for a in (None, False, True) for b in (None, False, True)]
+        for (amb, ts_) in subsets:
+            if time.time() - t_start > budget_s:
+                ck.notes.append("routes: budget reached")
+                break
+            opts = {}
+            if amb is not None:
+                opts["use_ambiguities"] = amb
+            if ts_ is not None:
+                opts["use_tip_states"] = ts_
+            cfg = dict(base, use_ambiguities=bool(amb), tip_states=bool(ts_))
+            ref_model = build_model(cfg).like  # positional constructor
+            rec0 = observe(ref_model)
+            variants = [(False, False), (True, True)] if not ck.thorough() else [(f, r) for f in (False, True) for r in (False, True)]
+            for full_names, referenced in variants:
+                label = "route:json opts=%s names=%s %s" % (json.dumps(opts, sort_keys=True), "full" if full_names else "short",
+                                                            "referenced/CLI" if referenced else "inline")
+                try:
+                    specs, _ = json_like_spec(cfg, opts, full_names, referenced, rng)
+                    like = build_from_json(specs)
+                except Exception as e:
+                    record_fail(fails, "route-raised", cfg, label, error="%s: %s" % (type(e).__name__, str(e)[:160]))
+                    ck.case(key=label, bucket="route/raised")
+                    continue
+                ck.case(key=(label, n), bucket="route/json", sample={"route": label, "n": n})
+                bad = []
+                if like.use_tip_states != bool(ts_):
+                    bad.append("use_tip_states=%r" % like.use_tip_states)
+                if like.rescale is not False:
+                    bad.append("rescale=%r" % like.rescale)
+                if like.threshold != ref_model.threshold:
+                    bad.append("threshold=%r" % like.threshold)
+                if len(like.partials) != len(ref_model.partials) or not torch.equal(like.weights, ref_model.weights) or \
+                        any(not torch.equal(a, b) for a, b in zip(like.partials[:n], build_model(cfg).like.partials[:n])):
+                    bad.append("tip data differ")
+                rec = observe(like)
+                if "error" in rec or "error" in rec0:
+                    bad.append("raised: %s" % (rec.get("error") or rec0.get("error")))
+                elif not torch.equal(rec["value"], rec0["value"]) or rec["calls"] != rec0["calls"]:
+                    bad.append("value %r vs constructor %r" % (rec["value"].tolist(), rec0["value"].tolist()))
+                if bad:
+                    record_fail(fails, "route-differs", cfg, label, detail=bad, calls=rec.get("calls", []), specs=specs)
+            # keyword constructor
+            kw = build_model(cfg)
+            like_kw = TreeLikelihoodModel(id_="like_kw", site_pattern=kw.like.site_pattern, tree_model=kw.tm, subst_model=kw.sm,
+                                          site_model=kw.site, clock_model=None, use_ambiguities=bool(amb), use_tip_states=bool(ts_))
+            rk = observe(like_kw)
+            ck.case(key=("route:keyword", str(opts), n), bucket="route/keyword-constructor")
+            if "error" in rk or "error" in rec0 or not torch.equal(rk["value"], rec0["value"]):
+                record_fail(fails, "route-differs", cfg, "route:keyword constructor", detail=[rk.get("error") or "value differs"])
+            # and the constructor-built one against the exact reference
+            h = Hist(cfg)
+            eval_and_check(ck, drv, h, "route-constructor", refs, fails, group="route")
+    # the optional key `branch_model`: small tree, and a size in the denormal band
+    for n_c, opts in ([(16, {}), (16, {"use_tip_states": True}), (536, {})] if not ck.thorough() else
+                      [(16, {}), (16, {"use_tip_states": True}), (16, {"use_ambiguities": True}), (520, {}), (536, {}),
+                       (536, {"use_tip_states": True})]):
+        if time.time() - t_start > budget_s:
+            ck.notes.append("routes: budget reached before the clock routes")
+            break
+        clock_route_check(ck, drv, fails, refs, rng, n_c, 2.0, opts)
+    # a route-built object inside the denormal band: the options must survive there too
+    if time.time() - t_start <= budget_s:
+        big = {"shape": "balanced", "model": "HKY", "K": 1, "t": 2.0, "n": 64, "sites": random_sites(rng, 1400, 3),
+               "seed_shape": rng.randrange(10 ** 6)}
+        d = per_taxon_log(drv, dict(big, n=0))
+        if d:
+            nb = max(4, int(round(738.0 / d)))
+            logs0 = site_logs_at(drv, dict(big, n=nb, sites=big["sites"][:nb]))  # one correction step of the size
+            if logs0:
+                nb = max(4, int(round(nb * 738.0 / -min(logs0))))
+            for opts in ({}, {"use_tip_states": True}, {"use_ambiguities": True, "use_tip_states": False}):
+                cfg = dict(big, n=nb, sites=big["sites"][:nb], tip_states=bool(opts.get("use_tip_states")),
+                           use_ambiguities=bool(opts.get("use_ambiguities")), route_opts=opts)
+                try:
+                    specs, _ = json_like_spec(cfg, opts, False, True, rng)
+                    like = build_from_json(specs)
+                except Exception as e:
+                    record_fail(fails, "route-raised", cfg, "route:json in band", error="%s: %s" % (type(e).__name__, str(e)[:160]))
+                    continue
+                h = Hist(cfg)
+                h.b.like = like
+                h.b.blp = like.tree_model._branch_lengths
+                h.ops.append({"op": "built-from-json", "opts": opts})
+                eval_and_check(ck, drv, h, "route-json-band-fresh", refs, fails, group="route")
+                eval_and_check(ck, drv, h, "route-json-band-repeat", refs, fails, group="route")
+    return fails
+
+
+def float32_sweep(ck: Check, drv, budget_s: float):
+    """default dtype float32 (everything float32, threshold 1e-20): float32 has its own band — smallest normal 1.2e-38
+    (log -87.3), smallest denormal 1.4e-45 (log -103.3). Reference = exact pruning on the float32 matrices."""
+    fails, refs = [], {}
+    t_start = time.time()
+    rng = ck.rng
+    configs = [("balanced", "JC69", 1, 5.0, False), ("random", "HKY", 1, 2.0, True)]
+    if ck.thorough():
+        configs += [("random", "JC69", 4, 1.5, False), ("caterpillar", "HKY", 4, 3.0, False), ("balanced", "GTR", 1, 1.0, True)]
+    targets = [-30.0, -43.0, -47.0, -52.0, -80.0, -87.5, -92.0, -96.0, -100.0, -103.0, -106.0, -125.0]
+    if ck.thorough():
+        targets = sorted(set(targets + [-40.0 - 2.0 * i for i in range(8)] + [-86.0 - 1.0 * i for i in range(22)]))
+    with dtype_regime("float32"):
+        for ci, (shape, model, K, t, tipst) in enumerate(configs):
+            sites_all = random_sites(rng, 200, 3 if K == 1 else 1)
+            base = {"shape": shape, "model": model, "K": K, "t": t, "tip_states": tipst, "seed_shape": rng.randrange(10 ** 6),
+                    "sites": sites_all, "n": 0, "dtype": "float32"}
+            d = per_taxon_log(drv, base)
+            if not d or d <= 0:
+                ck.notes.append(f"float32: probe failed for {shape}/{model}")
+                continue
+            sizes = sorted({max(4, int(round(-x / d))) for x in targets})
+            ck.extra.setdefault("float32_sweep_sizes", {})[f"{shape}/{model}/K={K}/{'tip-states' if tipst else 'tip-partials'}"] = sizes
+            for n in sizes:
+                if time.time() - t_start > budget_s:
+                    ck.notes.append(f"float32 sweep: budget reached in configuration {ci}")
+                    break
+                cfg = dict(base, n=n, sites=sites_all[:n])
+                h1 = Hist(cfg)
+                if h1.b.like.threshold != 1e-20:
+                    record_fail(fails, "wrong-threshold", cfg, "float32 model", detail=h1.b.like.threshold)
+                eval_and_check(ck, drv, h1, "f32-fresh", refs, fails, group="f32")
+                eval_and_check(ck, drv, h1, "f32-repeat", refs, fails, group="f32")
+                h2 = Hist(cfg)
+                h2.preset()
+                eval_and_check(ck, drv, h2, "f32-preset", refs, fails, group="f32")
+    # cross regimes: an all-float64 model evaluated while the default dtype is float32 (tip-state functions create
+    # `torch.ones(...)` without dtype), and an all-float32 model evaluated under default float64
+    for built_under, run_under in (("float64", "float32"), ("float32", "float64")):
+        for tipst in (False, True):
+            with dtype_regime(built_under):
+                cfg = {"shape": "random", "model": "HKY", "K": 1, "t": 0.4, "tip_states": tipst, "n": 14,
+                       "seed_shape": rng.randrange(10 ** 6), "sites": random_sites(rng, 14, 3), "dtype": built_under,
+                       "run_under": run_under}
+                h = Hist(cfg)
+                with dtype_regime(run_under):
+                    rec = h.evaluate()
+                _DTYPE["name"] = built_under
+                name = f"dtype/built-{built_under}/run-{run_under}/{'tip-states' if tipst else 'tip-partials'}"
+                if "error" in rec:
+                    ck.bucket(name + "/raised")
+                    record_fail(fails, "raised", cfg, name, error=rec["error"], calls=rec["calls"])
+                    continue
+                tot, logs = reference(drv, h.b.like, rec["mats"], rec["freqs"], rec["props"], None)
+                e = rel(float(rec["value"]), tot)
+                want_dtype = built_under
+                ck.case(key=name, bucket=name + "/" + str(rec["value"].dtype).replace("torch.", ""),
+                        sample={"regime": name, "value": float(rec["value"]), "reference": tot, "rel_err": e,
+                                "result_dtype": str(rec["value"].dtype)})
+                ck.extra.setdefault("dtype_regimes", {})[name] = {"result_dtype": str(rec["value"].dtype), "rel_err": e}
+                if not (e <= (TOL32 if built_under == "float32" else 1e-10)):
+                    record_fail(fails, "inaccurate", cfg, name, values=[float(rec["value"])], reference=[tot], rel_err=e,
+                                calls=rec["calls"], min_site_log=[min(logs)])
+                if str(rec["value"].dtype) != "torch." + want_dtype:
+                    # observable, but not a clause of C03 (value is right): recorded, reported in the notes
+                    ck.notes.append(f"{name}: result dtype {rec['value'].dtype} (inputs {want_dtype})")
+    return fails
+
+
+def scan_tensor_constructors():
+    """tensor constructors without dtype= in the anchored file (they take the global default dtype / cpu device)"""
+    import ast
+
+    src = (REPO / "torchtree" / "evolution" / "tree_likelihood.py").read_text()
+    out = []
+    for node in ast.walk(ast.parse(src)):
+        if isinstance(node, ast.Call) and isinstance(node.func, ast.Attribute) and isinstance(node.func.value, ast.Name) \
+                and node.func.value.id == "torch" and node.func.attr in ("ones", "zeros", "tensor", "full", "empty", "arange", "eye", "rand"):
+            kws = {k.arg for k in node.keywords}
+            if "dtype" not in kws or "device" not in kws:
+                out.append("line %d: torch.%s(...) without %s" % (node.lineno, node.func.attr,
+                                                                  "/".join(x for x in ("dtype", "device") if x not in kws)))
+    return out
+
+
+def snapshot_inputs(b):
+    like = b.like
+    T = len(like.tree_model.postorder) + 1
+    snap = {"branch_lengths": b.blp.tensor.detach().clone(), "weights": like.weights.detach().clone(),
+            "frequencies": like.subst_model.frequencies.detach().clone()}
+    for i in range(T):
+        snap["tip%d" % i] = like.partials[i].detach().clone()
+    for name in ("_kappa", "_rates"):
+        p = getattr(like.subst_model, name, None)
+        if p is not None and hasattr(p, "tensor"):
+            snap["subst" + name] = p.tensor.detach().clone()
+    p = getattr(like.site_model, "_parameter", None)
+    if p is not None:
+        snap["site_parameter"] = p.tensor.detach().clone()
+    return snap
+
+
+def changed_inputs(b, snap):
+    torch = tt()
+    now = snapshot_inputs(b)
+    return [k for k in snap if k not in now or now[k].shape != snap[k].shape or now[k].dtype != snap[k].dtype
+            or not torch.equal(now[k], snap[k])]
+
+
+def invariants_check(ck: Check, drv, budget_s: float):
+    """grad modes agree bitwise; inputs are never modified; repeated evaluations / later-built objects / copies / moved
+    objects agree; minimum sizes, zero branch lengths, repeated and ambiguous columns; the true-zero failure path"""
+    torch = tt()
+    rng = ck.rng
+    fails, refs = [], {}
+    t_start = time.time()
+    probes = [{"shape": "random", "model": "HKY", "K": 4, "t": 0.7, "n": 40},
+              {"shape": "balanced", "model": "JC69", "K": 1, "t": 5.0, "n": 528},  # inside the float64 band
+              {"shape": "random", "model": "JC69", "K": 1, "t": 1.0, "n": 30, "tip_states": True, "batch": [1.0, 4.0, 0.5]}]
+    if not ck.thorough():
+        probes = probes[:2]
+    # sample count equal to every other dimension: B = S = K = N = 4
+    probes.append({"shape": "random", "model": "HKY", "K": 4, "t": 0.4, "n": 18, "batch": [1.0, 0.5, 2.0, 3.0], "nsites": 4})
+    for pi, p in enumerate(probes):
+        if time.time() - t_start > budget_s:
+            ck.notes.append("invariants: budget reached")
+            break
+        cfg = dict(p, seed_shape=rng.randrange(10 ** 6), sites=random_sites(rng, p["n"], p.get("nsites", 2)))
+        cfg.pop("nsites", None)
+        if p.get("nsites"):  # make sure all N columns are distinct patterns
+            cfg["sites"] = [row[:-p["nsites"]] + "ACGT"[i % 4] * 0 + row[-p["nsites"]:] for i, row in enumerate(cfg["sites"])]
+        vals = {}
+        for mode in ("no_grad", "grad-enabled", "leaf-requires-grad"):
+            b = build_model(cfg)
+            snap = snapshot_inputs(b)
+            if mode == "leaf-requires-grad":
+                b.blp.tensor.requires_grad_(True)
+            try:
+                if mode == "no_grad":
+                    with torch.no_grad():
+                        rec = observe(b.like)
+                else:
+                    rec = observe(b.like)
+            except Exception as e:
+                rec = {"error": "%s: %s" % (type(e).__name__, e), "calls": []}
+            ck.case(key=("grad-mode", pi, mode), bucket="invariants/grad-mode/" + mode)
+            if "error" in rec:
+                record_fail(fails, "raised", cfg, "grad mode " + mode, error=rec["error"], calls=rec["calls"])
+                continue
+            vals[mode] = rec["value"].detach()
+            ch = changed_inputs(b, snap)
+            ck.bucket("invariants/immutability")
+            if ch:
+                record_fail(fails, "inputs-modified", cfg, "after evaluation (%s)" % mode, detail=ch, calls=rec["calls"])
+        if len(vals) == 3 and not (torch.equal(vals["no_grad"], vals["grad-enabled"]) and torch.equal(vals["grad-enabled"], vals["leaf-requires-grad"])):
+            record_fail(fails, "grad-mode-differs", cfg, "no_grad / grad / requires_grad",
+                        detail={k: v.reshape(-1).tolist() for k, v in vals.items()})
+        # repeatability: evaluations 2 and 3 take the same branch -> bit-identical; against the reference too
+        h = Hist(cfg)
+        r1 = eval_and_check(ck, drv, h, "inv-eval-1", refs, fails, group="invariants")
+        r2 = eval_and_check(ck, drv, h, "inv-eval-2", refs, fails, group="invariants")
+        r3 = eval_and_check(ck, drv, h, "inv-eval-3", refs, fails, group="invariants")
+        if all("value" in r for r in (r2, r3)) and r2["calls"] == r3["calls"] and not torch.equal(r2["value"], r3["value"]):
+            record_fail(fails, "not-repeatable", cfg, "evaluations 2 and 3", history=list(h.ops), calls=r3["calls"],
+                        values=r3["value"].reshape(-1).tolist(), reference=r2["value"].reshape(-1).tolist())
+        # device moves and copies: the value and the flag must survive
+        for op in ("cpu", "to-cpu", "deepcopy-and-continue-on-copy"):
+            flag_before = bool(h.b.like.rescale)
+            try:
+                h.apply_op(op)
+            except Exception as e:
+                h.ops.append({"op": op})
+                record_fail(fails, "device-move-raised" if "cpu" in op else "copy-raised", cfg, op, history=list(h.ops),
+                            error="%s: %s" % (type(e).__name__, str(e)[:160]), op=op)
+                h.ops.pop()
+                ck.case(key=("object-op", pi, op), bucket=f"invariants/{op}/raised")
+                continue
+            r4 = eval_and_check(ck, drv, h, "inv-after-" + op, refs, fails, group="invariants")
+            if bool(h.b.like.rescale) != (flag_before or bool(r4.get("flag_after"))) or (flag_before and not r4.get("flag_before")):
+                record_fail(fails, "flag-lost", cfg, "after " + op, history=list(h.ops), calls=r4.get("calls", []))
+            if "value" in r4 and "value" in r3 and r4["calls"] == r3["calls"] and not torch.equal(r4["value"], r3["value"]):
+                record_fail(fails, "not-repeatable", cfg, "after " + op, history=list(h.ops), calls=r4["calls"],
+                            values=r4["value"].reshape(-1).tolist(), reference=r3["value"].reshape(-1).tolist())
+        # update on the copy (h now IS the copy): the value follows the new parameters, the flag stays
+        if not cfg.get("batch"):
+            h.scale_branches(0.5)
+            eval_and_check(ck, drv, h, "inv-copy-updated", refs, fails, group="invariants")
+    # a model built late in this (long-lived) process behaves like the first model of a fresh process
+    if time.time() - t_start <= budget_s:
+        import subprocess
+        import tempfile
+
+        cfg = {"shape": "random", "model": "HKY", "K": 4, "t": 0.7, "n": 40, "seed_shape": rng.randrange(10 ** 6),
+               "sites": random_sites(rng, 40, 2)}
+        here = []
+        b = build_model(cfg)
+        for _ in range(2):
+            r = observe(b.like)
+            here.append("ERR" if "error" in r else ",".join(hexes(r["value"].reshape(-1))))
+        with tempfile.NamedTemporaryFile("w", suffix=".json", delete=False) as tf:
+            json.dump(cfg, tf)
+        try:
+            out = subprocess.run([sys.executable, str(Path(__file__).resolve()), "--fresh", tf.name], capture_output=True,
+                                 text=True, timeout=120, env=dict(__import__("os").environ, TT_REPO=str(REPO)))
+            there = [l.split(" ", 1)[1] for l in out.stdout.splitlines() if l.startswith("FRESH ")]
+        except Exception as e:
+            there = ["harness: %s" % e]
+        finally:
+            __import__("os").unlink(tf.name)
+        ck.case(key="fresh-process", bucket="invariants/fresh-process-vs-late-object")
+        if len(there) != 2:
+            ck.mismatch("fresh-process helper produced no output", {"stdout": out.stdout[-300:], "stderr": out.stderr[-300:]})
+        elif there != here:
+            record_fail(fails, "not-repeatable", cfg, "object built late in the process vs first object of a fresh process",
+                        values=here, reference=there)
+    # special but valid inputs: minimum sizes, zero-length branches on constant data, repeated columns (weights > 1),
+    # ambiguity codes, both tip paths
+    specials = []
+    for n in (2, 3, 4):
+        for t in (0.0, 0.1, 1.0):
+            cols = ["A" * n, "A" * n, "C" * n] if t == 0.0 else ["A" * n, "A" * n, "".join("ACGT"[i % 4] for i in range(n)), "N" * n,
+                                                                  "".join("R-YA"[i % 4] for i in range(n))]
+            sites = ["".join(c[i] for c in cols) for i in range(n)]
+            for tipst in (False, True):
+                for amb in (False, True):
+                    specials.append({"shape": "caterpillar", "model": "HKY" if n == 3 else "JC69", "K": 1 if n != 4 else 4,
+                                     "t": t, "n": n, "sites": sites, "tip_states": tipst, "use_ambiguities": amb})
+    for cfg in specials:
+        if time.time() - t_start > budget_s:
+            ck.notes.append("invariants: budget reached in the special inputs")
+            break
+        h = Hist(cfg)
+        eval_and_check(ck, drv, h, "special", refs, fails, group="special")
+    # failure path: impossible data (different states joined by zero-length branches): true likelihood 0. The code
+    # may return -inf or nan, must not raise, and the object must recover when the parameters become possible
+    cfg = {"shape": "caterpillar", "model": "JC69", "K": 1, "t": 0.0, "n": 3, "sites": ["A", "C", "A"]}
+    h = Hist(cfg)
+    rec = h.evaluate()
+    ck.case(key="failure-path", bucket="failure/true-zero/" + (rec.get("error", "")[:20] or repr(float(rec["value"]))))
+    ck.extra["failure_path_true_zero"] = rec.get("error") or {"value": repr(float(rec["value"])), "calls": rec["calls"],
+                                                              "flag_after": rec["flag_after"]}
+    if "error" in rec:
+        record_fail(fails, "raised", cfg, "true likelihood 0", error=rec["error"], history=list(h.ops))
+    elif math.isfinite(float(rec["value"])):
+        record_fail(fails, "finite-for-impossible-data", cfg, "true likelihood 0", values=[float(rec["value"])], history=list(h.ops))
+    torch = tt()
+    h.b.blp.tensor = torch.full_like(h.b.blp.tensor, 0.3)
+    h.ops.append({"op": "set-branch-lengths", "value": 0.3})
+    h.cfg = dict(cfg, t=0.3)
+    eval_and_check(ck, drv, h, "recovery-after-true-zero", refs, fails, group="failure")
+    return fails
+
+
+# ----------------------------------------------------------------------------------------------
 
 
 def zone_of(f):
@@ -967,6 +1520,13 @@ def zone_of(f):
 
 
 def sig_of(f):
+    if f["kind"] in ("route-raised", "route-differs"):
+        return "TreeLikelihoodModel:construction-route:" + f["kind"]
+    if f["kind"] in ("device-move-raised", "copy-raised"):
+        return "TreeLikelihoodModel:device-move:%s:raised" % f.get("op", "?").split("-")[0]
+    if f["kind"] in ("inputs-modified", "grad-mode-differs", "not-repeatable", "flag-lost", "wrong-threshold",
+                     "finite-for-impossible-data", "bad-shape"):
+        return "TreeLikelihoodModel:" + f["kind"]
     if f["kind"] == "direct-disagree":
         return "calculate_treelikelihood:" + f["variant"] + ":disagrees-with-unrescaled"
     br = branch_name(f["calls"], False)
@@ -976,6 +1536,8 @@ def sig_of(f):
         return f"TreeLikelihoodModel:{br}:finite-but-inaccurate:{zone_of(f)}"
     if f["kind"] == "not-finite":
         return f"TreeLikelihoodModel:{br}:not-finite:{zone_of(f)}"
+    if f["kind"] == "raised" and f["cfg"].get("run_under"):
+        return "TreeLikelihoodModel:dtype-regime"  # shared with C01: raises when default dtype != parameter dtype
     if f["kind"] == "raised":
         return "TreeLikelihoodModel:raised:" + f["error"].split(":")[0]
     return "TreeLikelihoodModel:" + f["kind"]
@@ -1017,10 +1579,22 @@ def run(ck: Check):
             if abs(got - want) > 1e-12 * max(1.0, abs(want)):
                 ck.mismatch("driver logarithm differs from mpmath", {"p": p, "q": q, "got": got, "want": want})
         direct_fails = []
-        small_correspondence(ck, drv, 240 if ck.thorough() else 50, direct_fails)
-        fails = direct_fails + sweep(ck, drv, 600.0 if ck.thorough() else 60.0)
-        fails += mixed_sweep(ck, drv, 240.0 if ck.thorough() else 30.0)
-        fails += batch_histories(ck, drv, 120.0 if ck.thorough() else 12.0)
+        timing = ck.extra.setdefault("part_seconds", {})
+
+        def timed(name, fn, *a):
+            t0 = time.time()
+            out = fn(*a)
+            timing[name] = round(time.time() - t0, 1)
+            return out
+
+        timed("small", small_correspondence, ck, drv, 240 if ck.thorough() else 50, direct_fails)
+        fails = direct_fails + timed("sweep", sweep, ck, drv, 600.0 if ck.thorough() else 44.0)
+        fails += timed("mixed", mixed_sweep, ck, drv, 240.0 if ck.thorough() else 20.0)
+        fails += timed("batch", batch_histories, ck, drv, 120.0 if ck.thorough() else 12.0)
+        fails += timed("routes", routes_check, ck, drv, 90.0 if ck.thorough() else 10.0)
+        fails += timed("float32", float32_sweep, ck, drv, 120.0 if ck.thorough() else 10.0)
+        fails += timed("invariants", invariants_check, ck, drv, 90.0 if ck.thorough() else 12.0)
+        ck.extra["tensor_constructors_without_dtype_or_device"] = scan_tensor_constructors()
     finally:
         drv.close()
     ck.extra["sweep_failures"] = len(fails)
@@ -1052,6 +1626,21 @@ def replay(path: str) -> int:
     if not f:
         print("replay names broken obligations only:", obj.get("broken_obligations"), obj.get("mismatches"))
         return 1
+    if f["kind"] in ("route-differs", "route-raised") and f.get("specs"):
+        torch = tt()
+        cfg = dict(f["cfg"], sites=f["sites"])
+        try:
+            like = build_from_json(f["specs"])
+            a = observe(like)
+            b = observe(build_model(cfg).like)
+            print("route-built:", a.get("error") or a["value"].tolist(), a["calls"], "use_tip_states", like.use_tip_states)
+            print("constructor:", b.get("error") or b["value"].tolist(), b["calls"])
+            bad = "error" in a or "error" in b or not torch.equal(a["value"], b["value"]) or like.use_tip_states != bool(cfg.get("tip_states"))
+        except Exception as e:
+            print("VIOLATES: building from the recorded JSON raised", type(e).__name__, e)
+            return 1
+        print("VIOLATES: route-built object differs" if bad else "ok")
+        return 1 if bad else 0
     if f["kind"] == "direct-disagree":
         case = f["case"]
         case["post"] = [tuple(t) for t in case["post"]]
@@ -1062,7 +1651,11 @@ def replay(path: str) -> int:
         print("VIOLATES: rescaled and unrescaled evaluation disagree" if bad else "ok")
         return 1 if bad else 0
     cfg = dict(f["cfg"], sites=f["sites"])
+    if cfg.get("dtype") == "float32":
+        _DTYPE["name"] = "float32"
     h = Hist(cfg)
+    if not f.get("history"):
+        f["history"] = [{"op": "evaluate"}]
     rec = None
     for op in f["history"]:
         if op["op"] == "set-rescale-flag":
@@ -1071,8 +1664,30 @@ def replay(path: str) -> int:
             h.scale_branches(op["factor"])
         elif op["op"] == "set-sample-scales":
             h.set_sample_scales(op["factors"])
+        elif op["op"] == "built-from-json":
+            import random as _r
+
+            specs, _ = json_like_spec(cfg, op["opts"], False, True, _r.Random(0))
+            like = build_from_json(specs)
+            h.b.like = like
+            h.b.blp = like.tree_model._branch_lengths
+        elif op["op"] == "set-branch-lengths":
+            torch = tt()
+            h.b.blp.tensor = torch.full_like(h.b.blp.tensor, op["value"])
+        elif op["op"] in ("cpu", "to-cpu", "deepcopy-and-continue-on-copy"):
+            try:
+                h.apply_op(op["op"])
+            except Exception as e:
+                print("VIOLATES: %s raised %s: %s" % (op["op"], type(e).__name__, e))
+                return 1
         elif op["op"] == "evaluate":
-            rec = h.evaluate()
+            if cfg.get("run_under"):
+                built = _DTYPE["name"]
+                with dtype_regime(cfg["run_under"]):
+                    rec = h.evaluate()
+                _DTYPE["name"] = built
+            else:
+                rec = h.evaluate()
             print("evaluate ->", rec.get("error") or [float(x) for x in rec["value"].reshape(-1).tolist()],
                   "calls", rec["calls"], "rescale flag", rec["flag_before"], "->", rec["flag_after"])
     if rec is None:
@@ -1098,9 +1713,18 @@ def replay(path: str) -> int:
     bad = False
     for x, r in zip(vals, refs):
         e = rel(x, r)
-        print("value %.17g reference %.17g relative error %.3g %s" % (x, r, e, "VIOLATES (> 1e-8 or not finite)" if not (e <= TOL) else "ok"))
-        bad = bad or not (e <= TOL)
+        print("value %.17g reference %.17g relative error %.3g %s" % (x, r, e, "VIOLATES (> %g or not finite)" % tol_now() if not (e <= tol_now()) else "ok"))
+        bad = bad or not (e <= tol_now())
     if f["kind"] == "flag-automaton":
         print("recorded flag-automaton failure:", f.get("model"), "observed calls", rec["calls"])
         bad = bad or (rec["flag_before"] and not rec["flag_after"])
     return 1 if bad else 0
+
+
+if __name__ == "__main__":  # helper for the fresh-process comparison: python c03.py --fresh cfg.json
+    if len(sys.argv) == 3 and sys.argv[1] == "--fresh":
+        _cfg = json.loads(Path(sys.argv[2]).read_text())
+        _b = build_model(_cfg)
+        for _ in range(2):
+            _r = observe(_b.like)
+            print("FRESH " + ("ERR" if "error" in _r else ",".join(hexes(_r["value"].reshape(-1)))))
